@@ -7,8 +7,8 @@
 //                                              instantiations + comparator calls + std::sort, replayed on the Lean model
 //   c10 --child <layout> <layoutSeed> <outdir> <seed> <case> <nsteps>     (internal)
 //
-// Layouts (child processes): 0 plain (ASLR as configured; two builds with unrelated allocations in between; + node-order
-// shuffles, traces only) | 1 ASLR off (personality ADDR_NO_RANDOMIZE) + LD_PRELOAD malloc shim (seeded padding/holes)
+// Layouts (child processes): 0 plain (ASLR as configured; two builds with unrelated allocations in between; + 5 permutations of
+// the node storage order made and observed by the harness (random, reverse, rotate, swap neighbours, library shuffleNodes()), traces only) | 1 ASLR off (personality ADDR_NO_RANDOMIZE) + LD_PRELOAD malloc shim (seeded padding/holes)
 // | 2 shim with another seed + glibc malloc tunables (MALLOC_TOP_PAD_, MALLOC_MMAP_THRESHOLD_, MALLOC_PERTURB_)
 // | 3 operator-new arena: small objects in descending address order, second build seeded mix | 4.. seeded combinations.
 // In every layout but the reference construction, seeded dummy allocations are also made *between construction steps* of the
@@ -325,7 +325,39 @@ static Trace drive(sim::ReferenceSimulator &sim, const vh::Built &b, const vh::S
 	return trace;
 }
 
+// Permutation of the node storage order, produced and *observed* by the harness (mode 5 = the library's own shuffleNodes(), observed too).
+static const char *permModeName(unsigned m) { static const char *n[] = {"none", "random", "reverse", "rotate", "swap-neighbours", "library-shuffleNodes", "random2"}; return n[m % 7]; }
+static std::string permuteNodes(hlim::Circuit &c, unsigned mode, uint64_t seed) {
+	auto &v = c.getNodes();
+	size_t n = v.size();
+	std::vector<hlim::BaseNode*> before; for (auto &p : v) before.push_back(p.get());
+	Rng r(seed * 0x9E3779B97F4A7C15ull + mode);
+	switch (mode) {
+		case 1: case 6: for (size_t i = n; i > 1; i--) std::swap(v[i - 1], v[r.below(i)]); break;
+		case 2: std::reverse(v.begin(), v.end()); break;
+		case 3: if (n > 1) std::rotate(v.begin(), v.begin() + 1 + r.below(n - 1), v.end()); break;
+		case 4: for (size_t i = r.below(2); i + 1 < n; i += 2) std::swap(v[i], v[i + 1]); if (n == 2) std::swap(v[0], v[1]); break;
+		case 5: c.shuffleNodes(); break;
+		default: break;
+	}
+	// observe the result
+	std::map<hlim::BaseNode*, size_t> oldIdx; for (size_t i = 0; i < n; i++) oldIdx[before[i]] = i;
+	size_t moved = 0, tail = 0; uint64_t dg = 0xcbf29ce484222325ull; bool sameSet = c.getNodes().size() == n;
+	for (size_t i = 0; i < c.getNodes().size(); i++) {
+		auto it = oldIdx.find(c.getNodes()[i].get());
+		if (it == oldIdx.end()) { sameSet = false; continue; }
+		if (it->second != i) { moved++; if (i >= n - n / 4) tail++; }
+		dg = (dg ^ it->second) * 0x100000001b3ull;
+		oldIdx.erase(it);
+	}
+	if (!oldIdx.empty()) sameSet = false;
+	std::ostringstream o;
+	o << "mode=" << permModeName(mode) << " n=" << n << " moved=" << moved << " tail=" << tail << " same_set=" << sameSet << " digest=" << vh::hex64(dg) << '\n';
+	return o.str();
+}
+
 // one construction of the design: traces before/after post-processing, export (+ test vectors, project files) into dir/export
+// shuffles: 0 = none (full export compared) | 1..6 = permutation mode of permuteNodes (traces compared)
 static void runVariant(const CaseSpec &s, const fs::path &dir, unsigned shuffles) {
 	fs::create_directories(dir);
 	std::ofstream status(dir / "status.txt");
@@ -338,7 +370,7 @@ static void runVariant(const CaseSpec &s, const fs::path &dir, unsigned shuffles
 		Rng srng(s.stimSeed);
 		vh::Stimulus st = vh::genStimulus(srng, b.inWidths, s.ncycles, s.undef);
 		writeTrace(dir / "trace_pre.txt", vh::simulate(design.getCircuit(), b, st));
-		for (unsigned i = 0; i < shuffles; i++) design.getCircuit().shuffleNodes();
+		if (shuffles) std::ofstream(dir / "perm.txt") << permuteNodes(design.getCircuit(), shuffles, s.stimSeed ^ g_perturbSeed);
 		if (getenv("C10_PASSES")) { // debugging aid: first output row after every post-processing pass
 			static const vh::Built *gb; static const vh::Stimulus *gs; gb = &b; gs = &st;
 			hlim::verif_passBoundary = +[](const char *pass, hlim::Circuit &c) { try { auto t = vh::simulate(c, *gb, *gs); std::cerr << pass << ":"; for (auto &v : t[0]) std::cerr << ' ' << v; std::cerr << '\n'; } catch (...) { std::cerr << pass << ": nosim\n"; } };
@@ -372,7 +404,9 @@ static void runVariant(const CaseSpec &s, const fs::path &dir, unsigned shuffles
 		writeTrace(dir / "trace_post.txt", post);
 		status << "ok\n";
 	} catch (const std::exception &e) {
-		status << "threw " << typeid(e).name() << '\n'; if (getenv("C10_CHILD_STDERR")) std::cerr << e.what() << std::endl;
+		status << "threw " << typeid(e).name() << '\n';
+		if (shuffles && !fs::exists(dir / "perm.txt")) // the construction threw before the node list could be permuted (same in every variant, see status.txt)
+			std::ofstream(dir / "perm.txt") << "mode=" << permModeName(shuffles) << " n=0 moved=0 tail=0 same_set=1 digest=0 skipped=construction-threw\n"; if (getenv("C10_CHILD_STDERR")) std::cerr << e.what() << std::endl;
 	}
 }
 
@@ -430,10 +464,12 @@ static int childMain(int argc, char **argv) {
 	g_perturbSeed = 0;
 	setMode(NORMAL, 0);
 	if (layout == 0) {
-		for (unsigned i = 1; i <= 3; i++) runVariant(s, out / ("s" + std::to_string(i)), i);
+		for (unsigned i = 1; i <= 5; i++) runVariant(s, out / ("s" + std::to_string(i)), i);
 	} else if (layout % 8 == 4) {
 		setMode(MIX, lseed + 5);
-		runVariant(s, out / "s2", 2);
+		g_perturbSeed = lseed | 1; // also a different permutation seed than in layout 0
+		runVariant(s, out / "s6", 6);
+		g_perturbSeed = 0;
 		setMode(NORMAL, 0);
 	}
 	auto shimCalls = (unsigned long (*)()) dlsym(RTLD_DEFAULT, "c10_shim_calls");
@@ -500,7 +536,7 @@ static std::string oneLine(std::string s) { for (auto &c : s) if (c == '\n' || c
 
 // first difference between two snapshots (restricted to trace files if tracesOnly); returns false if equal
 static bool firstDiff(const Snapshot &a, const Snapshot &b, bool tracesOnly, std::ostream &o, const std::string &an, const std::string &bn) {
-	auto relevant = [&](const std::string &f) { return f != "alloc.txt" && (!tracesOnly || f.rfind("trace_", 0) == 0 || f == "status.txt"); };
+	auto relevant = [&](const std::string &f) { return f != "alloc.txt" && f != "perm.txt" && (!tracesOnly || f.rfind("trace_", 0) == 0 || f == "status.txt"); };
 	std::vector<std::string> la, lb;
 	for (auto &p : a.files) if (relevant(p.first) && (!tracesOnly || b.files.count(p.first))) la.push_back(p.first);
 	for (auto &p : b.files) if (relevant(p.first) && (!tracesOnly || a.files.count(p.first))) lb.push_back(p.first);
@@ -573,12 +609,13 @@ static int designStream(uint64_t seed, uint64_t ncases, uint64_t nsteps, unsigne
 				bool shuffle = v[0] == 's';
 				uint64_t dg = 0xcbf29ce484222325ull, tr = 0xcbf29ce484222325ull; size_t nf = 0;
 				for (auto &p : sn.files) {
-					if (p.first == "alloc.txt") continue;
+					if (p.first == "alloc.txt" || p.first == "perm.txt") continue;
 					if (p.first.rfind("trace_", 0) == 0) { tr = fnv(fnv(tr, p.first), p.second); continue; }
 					if (shuffle && p.first != "status.txt") continue;
 					dg = fnv(fnv(dg, p.first), p.second); nf++;
 				}
 				std::string name = "L" + std::to_string(l) + "/" + v;
+				if (shuffle) o << "perm " << name << ' ' << (sn.files.count("perm.txt") ? oneLine(sn.files["perm.txt"]) : std::string("missing")) << '\n';
 				o << "variant " << name << " kind=" << (shuffle ? "shuffle" : "full") << " files=" << nf << " digest=" << vh::hex64(dg) << " trace=" << vh::hex64(tr) << '\n';
 				if (name == "L0/b0") continue;
 				std::ostringstream mm;
@@ -609,6 +646,7 @@ struct Objs {
 	std::vector<hlim::Clock*> clocks;
 	std::vector<hlim::NodeGroup*> groups;
 	std::map<const void*, size_t> rank; // address rank among all objects of the case (0 = nullptr)
+	std::map<const void*, size_t> cidx; // creation index within the object's kind (what the harness knows without asking getId())
 
 	void create(Rng &r, size_t n) {
 		using namespace c10alloc;
@@ -618,6 +656,7 @@ struct Objs {
 			s->moveToGroup(circuit.getRootNodeGroup());
 			nodes.push_back(s);
 			if (r.chance(1, 3)) clocks.push_back(circuit.createClock<hlim::RootClock>("clk" + std::to_string(i), hlim::ClockRational(1000 + i, 1)));
+			if (!clocks.empty() && r.chance(1, 4)) clocks.push_back(circuit.createUnconnectedClock(clocks[r.below(clocks.size())], nullptr)); // the clone path assigns ids separately (Circuit.cpp:187-192)
 			if (r.chance(1, 3)) groups.push_back(circuit.getRootNodeGroup()->addChildNodeGroup(hlim::NodeGroupType::ENTITY, "g" + std::to_string(i)));
 			setMode(NORMAL, 0);
 		}
@@ -630,11 +669,15 @@ struct Objs {
 		std::sort(all.begin(), all.end());
 		for (size_t i = 0; i < all.size(); i++) rank[all[i]] = i + 1;
 		rank[nullptr] = 0;
+		for (size_t i = 0; i < nodes.size(); i++) cidx[nodes[i]] = i;
+		for (size_t i = 0; i < clocks.size(); i++) cidx[clocks[i]] = i;
+		for (size_t i = 0; i < groups.size(); i++) cidx[groups[i]] = i;
 	}
 };
 
 template<class Ptr> static void printPtr(std::ostream &o, Ptr *p, Objs &ob) {
-	if (!p) o << " 1 0 0"; else o << " 0 " << p->getId() << ' ' << ob.rank[p];
+	// null? | id as reported by the implementation | address rank | creation index known to the harness
+	if (!p) o << " 1 0 0 0"; else o << " 0 " << p->getId() << ' ' << ob.rank[p] << ' ' << ob.cidx[p];
 }
 
 static void containerCase(uint64_t k, Rng &r, size_t maxKeys, std::ostream &o) {
